@@ -99,6 +99,9 @@ type World struct {
 	stepI int
 	mon   *Monitor
 	calls int
+	// the (non-canonical) encoding of the last block was not accepted by
+	// Verify: nothing is claimed for it and the behaviour stops there
+	encRejected bool
 }
 
 func rowsFor(tier string) []uint8 {
@@ -272,6 +275,7 @@ func (w *World) checkRoots(expRoots []string, props ...string) {
 // ---------------------------------------------------------------------------
 
 type blockArgs struct {
+	bad     string // the encoding could not be constructed
 	dels    []Hash
 	adds    []Hash
 	targets []uint64
@@ -292,6 +296,33 @@ func (w *World) blockArgs(st *Step) blockArgs {
 		for j := 0; j < st.Enc.Junk; j++ {
 			ba.proof = append(ba.proof, w.sy.H(junkTerm(100+j)))
 		}
+		mk := func(p *JProof) utreexo.Proof {
+			return utreexo.Proof{Targets: w.encTargets(p.T, R), Proof: w.sy.Hs(p.P)}
+		}
+		switch st.Enc.Kind {
+		case "addproof":
+			// the block proof is assembled by the real AddProof from two canonical proofs
+			pan := protect(func() {
+				hs, pr := utreexo.AddProof(mk(st.Enc.Pa), mk(st.Enc.Pb), w.leafHashes(st.Enc.A), w.leafHashes(st.Enc.B), w.n)
+				ba.dels, ba.targets, ba.proof = hs, pr.Targets, pr.Proof
+			})
+			if pan != "" {
+				ba.bad = "AddProof panicked: " + pan
+			}
+		case "subset":
+			// the block proof is cut out of a bigger canonical proof by the real GetProofSubset
+			pan := protect(func() {
+				hs, pr, err := utreexo.GetProofSubset(mk(st.Enc.Psup), w.leafHashes(st.Enc.Sup), ba.targets, w.n)
+				if err != nil {
+					ba.bad = "GetProofSubset failed: " + err.Error()
+					return
+				}
+				ba.dels, ba.targets, ba.proof = hs, pr.Targets, pr.Proof
+			})
+			if pan != "" {
+				ba.bad = "GetProofSubset panicked: " + pan
+			}
+		}
 	}
 	return ba
 }
@@ -299,6 +330,28 @@ func (w *World) blockArgs(st *Step) blockArgs {
 // applyMod applies a block to every instance.
 func (w *World) applyMod(st *Step) {
 	ba := w.blockArgs(st)
+	if st.Enc != nil && st.Enc.Kind != "canon" {
+		// C05 is conditional on the stand-alone verifier accepting this encoding
+		accepted := ba.bad == ""
+		if accepted {
+			for _, in := range w.insts {
+				if in.Kind == KStump {
+					s := utreexo.Stump{Roots: append([]Hash{}, in.S.Roots...), NumLeaves: in.S.NumLeaves}
+					pan := protect(func() {
+						_, err := utreexo.Verify(s, ba.dels, utreexo.Proof{Targets: ba.targets, Proof: ba.proof})
+						accepted = err == nil
+					})
+					if pan != "" {
+						accepted = false
+					}
+				}
+			}
+		}
+		if !accepted {
+			w.encRejected = true
+			return
+		}
+	}
 	for _, in := range w.insts {
 		in := in
 		g := w.mon.begin(in, "mod")
